@@ -188,6 +188,44 @@ def run_numpy(res: Result, dim, system):
                                 continue
                         if n >= 2 or 0 in shape:
                             res.nontrivial += 1
+    # reduce, update a stored field in place, reduce again (the same array object): the second reduction is of the updated elements
+    for flavor in ("generic", "momentum"):
+        for shape in ((4,), (2, 3)):
+            n = int(np.prod(shape))
+            rows0 = element_rows(dim, system, n, offset=5)[:n]
+            fnames = L.field_names(system, flavor)
+            for fi in range(len(fnames)):
+                arr = B.make_np(system, flavor, rows0).reshape(shape)
+                stored_name = arr.dtype.names[fi]
+                try:
+                    np.sum(arr), arr.sum(axis=0), np.count_nonzero(arr)
+                    delta = 0.375 if L.field_names(system)[fi] != "theta" else 0.125
+                    arr[stored_name] = arr[stored_name] + delta
+                    arr[stored_name].reshape(-1)[0] += delta  # element-wise write through the field view
+                except Exception:  # noqa: BLE001
+                    res.count("field_assignment_not_supported")
+                    continue
+                rows1 = [tuple(x + ((2 * delta if k == 0 else delta) if j == fi else 0.0) for j, x in enumerate(r)) for k, r in enumerate(rows0)]
+                carts = np.array([cart_of(system, flavor, r) for r in rows1], dtype=np.float64).reshape(shape + (dim,))
+                scale = float(np.sum(np.abs(carts)))
+                for red, f in (("numpy.sum", lambda a: np.sum(a)), (".sum(axis=0)", lambda a: a.sum(axis=0)), ("numpy.sum(axis=-1,keepdims)", lambda a: np.sum(a, axis=-1, keepdims=True))):
+                    res.states += 1
+                    res.evaluations += 1
+                    res.transitions += 1
+                    res.traces += 1
+                    case = {"backend": "NP", "sys": list(system), "flavor": flavor, "shape": list(shape), "reducer": red, "after_assignment_of": fnames[fi]}
+                    cls = f"after_field_assignment|{red}|NP|{L.sysname(system)}|shape{shape}"
+                    try:
+                        r = f(arr)
+                        got = np.stack([np.asarray(getattr(r, nme), dtype=np.float64) for nme in names], axis=-1)
+                    except Exception as e:  # noqa: BLE001
+                        res.violation(f"raises|{cls}", f"{red} after arr[{stored_name!r}] = ... raised {type(e).__name__}: {str(e)[:150]}", case)
+                        continue
+                    want = np.sum(carts, axis=tuple(range(len(shape)))) if red == "numpy.sum" else np.sum(carts, axis=0) if red == ".sum(axis=0)" else np.sum(carts, axis=len(shape) - 1, keepdims=True)
+                    if got.shape != want.shape or not np.all(np.abs(got - want) <= 1e-11 * max(1.0, scale)):
+                        res.violation(f"value|{cls}", f"{red} after arr[{stored_name!r}] was updated in place = {got.tolist()}, the sum of the updated elements' Cartesian components is {want.tolist()}", case)
+                    else:
+                        res.nontrivial += 1
     res.sample({"backend": "NP", "sys": list(system), "shapes": [list(s) for s in NP_SHAPES], "reducers": ["numpy.sum", ".sum()", "numpy.count_nonzero"]})
 
 
